@@ -1,14 +1,295 @@
 /-
   C13 — TFM-PVALUE score thresholds are consistent with the exact score distribution.
-  (theorems under construction)
+
+  Exact instance (`Rat`) of the mirror model LMV.Model.Tfm (the code with the four `fix:` commits).
+  Shared lemmas (R) `rounding` and (D) `distribution_spec` are in LMV.Lemmas.Tfm; `C12.tail` is
+  P(S ≥ x).
 -/
-import LMV.Model.Tfm
+import LMV.Props.C12
 
 namespace LMV
 namespace C13
-open Tfm
+open Tfm C12
 
-theorem ten_rat : (Num.ten : Rat) = 10 := rfl
+/-! ### the scan of `lookup_score`, on a list of (key, mass) in DESCENDING key order -/
+
+def psum (l : List (Int × Rat)) : Rat := (l.map (·.2)).sum
+
+@[simp] theorem psum_nil : psum [] = 0 := rfl
+@[simp] theorem psum_cons (x : Int × Rat) (t : List (Int × Rat)) : psum (x :: t) = x.2 + psum t := by
+  simp [psum]
+theorem psum_append (l₁ l₂ : List (Int × Rat)) : psum (l₁ ++ l₂) = psum l₁ + psum l₂ := by
+  simp [psum]
+
+/-- the `pvalues` entries written while the keys `as` were processed without a break, newest first -/
+def pvOf (sum : Rat) : List (Int × Rat) → List (Int × Rat)
+  | [] => []
+  | x :: t => pvOf (sum + x.2) t ++ [(x.1, sum + x.2)]
+
+theorem pvOf_append_singleton (sum : Rat) (l : List (Int × Rat)) (x : Int × Rat) :
+    pvOf sum (l ++ [x]) = (x.1, sum + psum l + x.2) :: pvOf sum l := by
+  induction l generalizing sum with
+  | nil => simp [pvOf]
+  | cons y t ih =>
+    simp only [List.cons_append, pvOf, ih, psum_cons, List.cons_append]
+    congr 2; ring
+
+/-- what `scanDown` returns -/
+theorem scanDown_spec (p : Rat) (d : List (Int × Rat)) (sum : Rat) (pv : List (Int × Rat)) :
+    ∃ as rest, d = as ++ rest ∧
+      (∀ as₁ x as₂, as = as₁ ++ x :: as₂ → sum + psum as₁ + x.2 < p) ∧
+      ((rest = [] ∧ as = [] ∧ scanDown p sum pv d = (sum, pv, [])) ∨
+        (∃ e0, rest = [e0] ∧ scanDown p sum pv d = (sum + psum as, pvOf sum as ++ pv, [e0])) ∨
+        (∃ b b' bs, rest = b :: b' :: bs ∧ p ≤ sum + psum as + b.2 ∧
+          scanDown p sum pv d =
+            (sum + psum as + b.2, (b.1, sum + psum as + b.2) :: (pvOf sum as ++ pv), b :: b' :: bs))) := by
+  induction d generalizing sum pv with
+  | nil => exact ⟨[], [], rfl, by simp, Or.inl ⟨rfl, rfl, rfl⟩⟩
+  | cons e t ih =>
+    cases t with
+    | nil =>
+      refine ⟨[], [e], rfl, by simp, Or.inr (Or.inl ⟨e, rfl, ?_⟩)⟩
+      simp [scanDown, pvOf]
+    | cons e' t' =>
+      by_cases hb : p ≤ sum + e.2
+      · refine ⟨[], e :: e' :: t', rfl, by simp, Or.inr (Or.inr ⟨e, e', t', rfl, by simpa using hb, ?_⟩)⟩
+        simp [scanDown, hb, pvOf]
+      · obtain ⟨as, rest, hd, hlt, hcase⟩ := ih (sum + e.2) ((e.1, sum + e.2) :: pv)
+        have hstep : scanDown p sum pv (e :: e' :: t') =
+            scanDown p (sum + e.2) ((e.1, sum + e.2) :: pv) (e' :: t') := by
+          simp [scanDown, hb]
+        refine ⟨e :: as, rest, by rw [hd]; rfl, ?_, ?_⟩
+        · intro as₁ x as₂ h
+          cases as₁ with
+          | nil =>
+            simp only [List.nil_append, List.cons.injEq] at h
+            rw [← h.1]; simpa using lt_of_not_ge hb
+          | cons y as₁' =>
+            simp only [List.cons_append, List.cons.injEq] at h
+            have := hlt as₁' x as₂ h.2
+            rw [← h.1]; simp only [psum_cons]; linarith
+        · rw [hstep]
+          rcases hcase with ⟨h1, h2, h3⟩ | ⟨e0, h1, h3⟩ | ⟨b, b', bs, h1, h2, h3⟩
+          · rw [h1, h2] at hd; simp at hd
+          · refine Or.inr (Or.inl ⟨e0, h1, ?_⟩)
+            rw [h3]; simp only [psum_cons, pvOf, List.append_assoc, List.singleton_append]
+            congr 1; ring
+          · refine Or.inr (Or.inr ⟨b, b', bs, h1, ?_, ?_⟩)
+            · simp only [psum_cons]; linarith
+            · rw [h3]; simp only [psum_cons, pvOf, List.append_assoc, List.singleton_append]
+              have : sum + e.2 + psum as + b.2 = sum + (e.2 + psum as) + b.2 := by ring
+              rw [this]
+
+/-! ### `pvalues` look-ups -/
+
+theorem pvGet_cons (k : Int) (v : Rat) (l : List (Int × Rat)) (k' : Int) :
+    pvGet ((k, v) :: l) k' = if k = k' then some v else pvGet l k' := by
+  by_cases h : k = k'
+  · simp [pvGet, List.find?_cons, h]
+  · simp [pvGet, List.find?_cons, h]
+
+theorem pvGet_nil (k : Int) : pvGet ([] : List (Int × Rat)) k = none := rfl
+
+theorem mem_pvOf {sum : Rat} {as : List (Int × Rat)} {e : Int × Rat} (he : e ∈ pvOf sum as) :
+    ∃ x ∈ as, x.1 = e.1 := by
+  induction as generalizing sum with
+  | nil => simp [pvOf] at he
+  | cons y t ih =>
+    simp only [pvOf, List.mem_append, List.mem_singleton] at he
+    rcases he with he | he
+    · obtain ⟨x, hx, h⟩ := ih he
+      exact ⟨x, List.mem_cons_of_mem _ hx, h⟩
+    · exact ⟨y, List.mem_cons_self, by rw [he]⟩
+
+theorem pvGet_none {l : List (Int × Rat)} {k : Int} (h : ∀ e ∈ l, e.1 ≠ k) : pvGet l k = none := by
+  induction l with
+  | nil => rfl
+  | cons e t ih =>
+    obtain ⟨k0, v0⟩ := e
+    rw [pvGet_cons]
+    have : k0 ≠ k := h (k0, v0) List.mem_cons_self
+    simp only [this, if_false]
+    exact ih fun e he => h e (List.mem_cons_of_mem _ he)
+
+/-- a threshold `k` splits a key-descending list into the entries at or above it and the rest -/
+theorem wsum_split {l₁ l₂ : List (Int × Rat)} {k : Int} (h1 : ∀ x ∈ l₁, k ≤ x.1)
+    (h2 : ∀ y ∈ l₂, y.1 < k) :
+    wsum (l₁ ++ l₂) (fun j => if k ≤ j then 1 else 0) = psum l₁ := by
+  rw [wsum_append]
+  have e1 : wsum l₁ (fun j => if k ≤ j then 1 else 0) = wsum l₁ (fun _ => 1) :=
+    wsum_congr fun e he => by simp [h1 e he]
+  have e2 : wsum l₂ (fun j => if k ≤ j then 1 else 0) = wsum l₂ (fun _ => 0) :=
+    wsum_congr fun e he => by
+      have : ¬ k ≤ e.1 := by have := h2 e he; omega
+      simp [this]
+  rw [e1, e2]
+  simp [wsum, psum]
+
+theorem tailFrom_reverse (Q : List (Int × Rat)) (k : Int) :
+    tailFrom Q k = wsum Q.reverse (fun j => if k ≤ j then 1 else 0) := by
+  rw [tailFrom_eq]
+  exact (wsum_perm (List.reverse_perm Q) _).symm
+
+/-! ### what `lookup_score` returns, in terms of the tails stored in the map -/
+
+theorem lookupScoreQ_spec {Q : List (Int × Rat)} (hsort : Q.Pairwise (fun a b => a.1 < b.1))
+    (hne : Q ≠ []) {p E : Rat} (hp : 0 < p)
+    (hU : ∀ top, Q.getLast? = some top → top.2 ≤ p) :
+    ∃ alpha a b, lookupScoreQ E Q p = some (alpha, a, b) ∧ (∃ e ∈ Q, e.1 = alpha) ∧
+      ((∃ ae, (∃ e ∈ Q, e.1 = ae) ∧ ae < alpha ∧ (∀ e ∈ Q, e.1 ≤ ae ∨ alpha ≤ e.1) ∧
+          tailFrom Q alpha < p ∧ p < tailFrom Q ae ∧ (a ≠ b → ((alpha - ae : Int) : Rat) ≤ E)) ∨
+        (tailFrom Q alpha = p ∧ a = b) ∨
+        ((∀ e ∈ Q, alpha ≤ e.1) ∧ wsum Q (fun k => if alpha < k then 1 else 0) < p ∧ a = b)) := by
+  have hd : Q.reverse.Pairwise (fun a b => b.1 < a.1) := List.pairwise_reverse.2 hsort
+  have hmem : ∀ e, e ∈ Q ↔ e ∈ Q.reverse := fun e => List.mem_reverse.symm
+  obtain ⟨as, rest, hdeq, hlt, hcase⟩ := scanDown_spec p Q.reverse 0 []
+  rw [hdeq] at hd
+  obtain ⟨hd1, hd2, hd3⟩ := List.pairwise_append.1 hd
+  rcases hcase with ⟨h1, h2, _⟩ | ⟨e0, h1, h3⟩ | ⟨b, b', bs, h1, h2, h3⟩
+  · -- empty key list: impossible
+    rw [h1, h2] at hdeq
+    simp at hdeq
+    exact absurd hdeq hne
+  · -- the scan ran out of keys
+    subst h1
+    have hsx : ¬ p < 0 + psum as := by
+      rcases List.eq_nil_or_concat as with h | ⟨as', a, h⟩
+      · subst h; simp; exact le_of_lt hp
+      · have := hlt as' a [] (by simpa using h)
+        rw [h]; simp only [List.concat_eq_append, psum_append, psum_cons, psum_nil] at *
+        linarith
+    refine ⟨e0.1, 0 + psum as, 0 + psum as, ?_, ⟨e0, (hmem e0).2 (by rw [hdeq]; simp), rfl⟩, ?_⟩
+    · unfold lookupScoreQ
+      simp only [zero_rat]
+      rw [h3]
+      simp only [lt_rat, decide_eq_true_eq, hsx, if_false, pvGet_cons, if_true]
+      split <;> rfl
+    · refine Or.inr (Or.inr ⟨?_, ?_, rfl⟩)
+      · intro e he
+        rw [hmem, hdeq, List.mem_append, List.mem_singleton] at he
+        rcases he with he | he
+        · exact le_of_lt (hd3 e he e0 (by simp))
+        · rw [he]
+      · rw [← wsum_perm (List.reverse_perm Q), hdeq]
+        have : wsum (as ++ [e0]) (fun k => if e0.1 < k then 1 else 0) =
+            wsum (as ++ [e0]) (fun k => if e0.1 + 1 ≤ k then 1 else 0) := by
+          apply wsum_congr; intro e _; simp [Int.add_one_le_iff]
+        rw [this, wsum_split (k := e0.1 + 1)]
+        · simpa using lt_of_not_ge (fun h => hsx (by
+            rcases lt_or_eq_of_le h with h | h
+            · simpa using h
+            · exfalso
+              rcases List.eq_nil_or_concat as with h' | ⟨as', a, h'⟩
+              · subst h'; simp at h; linarith
+              · have := hlt as' a [] (by simpa using h')
+                rw [h'] at h
+                simp only [List.concat_eq_append, psum_append, psum_cons, psum_nil] at h this
+                linarith))
+        · intro x hx; have := hd3 x hx e0 (by simp); omega
+        · intro y hy; simp only [List.mem_singleton] at hy; rw [hy]; omega
+  · -- the scan stopped at `b`
+    subst h1
+    have hbQ : b ∈ Q := (hmem b).2 (by rw [hdeq]; simp)
+    have hb'lt : b'.1 < b.1 := by
+      rw [List.pairwise_cons] at hd2
+      exact hd2.1 b' (by simp)
+    have hrest_le : ∀ e ∈ b :: b' :: bs, e.1 ≤ b.1 := by
+      intro e he
+      rcases List.mem_cons.1 he with he | he
+      · rw [he]
+      · rw [List.pairwise_cons] at hd2
+        exact le_of_lt (hd2.1 e he)
+    have htb : tailFrom Q b.1 = 0 + psum as + b.2 := by
+      rw [tailFrom_reverse, hdeq]
+      have : as ++ b :: b' :: bs = (as ++ [b]) ++ (b' :: bs) := by simp
+      rw [this, wsum_split (k := b.1)]
+      · simp [psum_append]
+      · intro x hx
+        rw [List.mem_append, List.mem_singleton] at hx
+        rcases hx with hx | hx
+        · exact le_of_lt (hd3 x hx b (by simp))
+        · rw [hx]
+      · intro y hy
+        rw [List.pairwise_cons] at hd2
+        exact hd2.1 y hy
+    by_cases hgt : p < 0 + psum as + b.2
+    · -- sum > pvalue
+      rcases List.eq_nil_or_concat as with has | ⟨as', a, has⟩
+      · -- the bucket alone exceeds p: excluded by the soundness of the window
+        exfalso
+        subst has
+        have htop : Q.getLast? = some b := by
+          rw [← List.head?_reverse, hdeq]; rfl
+        have := hU b htop
+        simp at hgt; linarith
+      · have has' : as = as' ++ [a] := by simpa using has
+        have haQ : a ∈ Q := (hmem a).2 (by rw [hdeq, has']; simp)
+        have hab : b.1 < a.1 := hd3 a (by rw [has']; simp) b (by simp)
+        have hxa : 0 + psum as' + a.2 < p := hlt as' a [] (by simpa using has)
+        have hta : tailFrom Q a.1 = 0 + psum as' + a.2 := by
+          rw [tailFrom_reverse, hdeq, wsum_split (k := a.1)]
+          · rw [has']; simp [psum_append]
+          · intro x hx
+            rw [has', List.mem_append, List.mem_singleton] at hx
+            rcases hx with hx | hx
+            · rw [has'] at hd1
+              obtain ⟨_, _, hd13⟩ := List.pairwise_append.1 hd1
+              exact le_of_lt (hd13 x hx a (by simp))
+            · rw [hx]
+          · intro y hy
+            have := hrest_le y hy
+            omega
+        have hne_ab : ¬ b.1 = a.1 := by omega
+        have hpv : (b.1, 0 + psum as + b.2) :: (pvOf 0 as ++ []) =
+            (b.1, 0 + psum as + b.2) :: (a.1, 0 + psum as' + a.2) :: pvOf 0 as' := by
+          rw [List.append_nil, has', pvOf_append_singleton]
+        refine ⟨a.1, if E < ((a.1 - b.1 : Int) : Rat) then 0 + psum as' + a.2 else 0 + psum as + b.2,
+          0 + psum as' + a.2, ?_, ⟨a, haQ, rfl⟩, Or.inl ⟨b.1, ⟨b, hbQ, rfl⟩, hab, ?_, ?_, ?_, ?_⟩⟩
+        · unfold lookupScoreQ
+          simp only [zero_rat]
+          rw [h3, hpv]
+          simp only [lt_rat, decide_eq_true_eq, hgt, if_true, List.head?_cons,
+            Option.map_some, ofInt_rat, pvGet_cons, hne_ab, if_false]
+          split <;> simp_all
+        · intro e he
+          rw [hmem, hdeq, List.mem_append] at he
+          rcases he with he | he
+          · right
+            rw [has', List.mem_append, List.mem_singleton] at he
+            rcases he with he | he
+            · rw [has'] at hd1
+              obtain ⟨_, _, hd13⟩ := List.pairwise_append.1 hd1
+              exact le_of_lt (hd13 e he a (by simp))
+            · rw [he]
+          · left; exact hrest_le e he
+        · rw [hta]; exact hxa
+        · rw [htb]; exact hgt
+        · intro hne_ab'
+          by_cases hE : E < ((a.1 - b.1 : Int) : Rat)
+          · rw [if_pos hE] at hne_ab'; exact absurd rfl hne_ab'
+          · exact not_lt.1 hE
+    · -- sum == pvalue
+      have heq : 0 + psum as + b.2 = p := le_antisymm (not_lt.1 hgt) h2
+      have hne_b : ¬ b'.1 = b.1 := by omega
+      have hnone : pvGet ((b.1, 0 + psum as + b.2) :: (pvOf 0 as ++ [])) b'.1 = none := by
+        apply pvGet_none
+        intro e he
+        rw [List.append_nil] at he
+        rcases List.mem_cons.1 he with he | he
+        · rw [he]; simp; omega
+        · obtain ⟨x, hx, hxe⟩ := mem_pvOf he
+          have := hd3 x hx b' (by simp)
+          omega
+      refine ⟨b.1, if E < ((b.1 - b'.1 : Int) : Rat) then 0 + psum as + b.2 else 0 + psum as + b.2 + 0,
+        0 + psum as + b.2, ?_, ⟨b, hbQ, rfl⟩, Or.inr (Or.inl ⟨?_, ?_⟩)⟩
+      · unfold lookupScoreQ
+        simp only [zero_rat]
+        rw [h3]
+        simp only [lt_rat, decide_eq_true_eq, hgt, if_false, hnone, Option.getD_none,
+          add_rat, ofInt_rat, pvGet_cons, hne_b, if_true]
+        split <;> simp_all
+      · rw [htb]; exact heq
+      · split <;> simp
 
 end C13
 end LMV
